@@ -333,9 +333,19 @@ class Gen:
             text = "#[size(%d), align(%d)]\nextern type %s;" % (size, align, name)
         else:
             text = "#[align(%d)]\n#[size(%s)]\nextern type %s;" % (align, int_lit(self.rng, size), name)
-        if self.want_miss():
-            text = "#[size(%d)]\nextern type %s;" % (size, name)
-            self.expect["miss"] = "extern type without align"
+        if self.p["miss"] > 0 and self.expect["miss"] is None and self.rng.random() < 0.06:
+            # functions can only be attached to a type the module defines
+            text += "\nimpl %s {\n    #[address(0x%x)]\n    pub fn xm%d(&self) -> u32;\n}" % (name, 0x1000 + self.uid, self.uid)
+            self.expect["miss"] = "impl block on an extern type"
+            self.miss_done = True
+        elif self.want_miss():
+            if self.rng.random() < 0.5:
+                text = "#[size(%d)]\nextern type %s;" % (size, name)
+                self.expect["miss"] = "extern type without align"
+            else:
+                # functions can only be attached to a type the module defines
+                text += "\nimpl %s {\n    #[address(0x%x)]\n    pub fn xm%d(&self) -> u32;\n}" % (name, 0x1000 + self.uid, self.uid)
+                self.expect["miss"] = "impl block on an extern type"
         self.add_item(mod, text)
         t = TypeInfo(mod, name, size, align, "extern", pub=True)
         self.types.append(t)
@@ -374,7 +384,7 @@ class Gen:
                         v = rng.randint(max(lo, -40), min(hi, 300))
                     else:
                         v = rng.randint(lo, hi)
-                    if v not in used and (v + (n - i)) <= hi:
+                    if v not in used and (v + (n - i - 1)) <= hi:       # the variants that follow may count on from v
                         break
                 else:
                     v = None
@@ -708,9 +718,12 @@ class Gen:
             self.miss_done = True
         elif self.want_miss():
             k = rng.random()
-            if k < 0.4 and natural_end > 0:
+            if k < 0.25 and natural_end > 0:
                 size_attr = natural_end - 1
                 miss_here = "size one too small"
+            elif k < 0.45 and not packed and (eff_align or 1) > 1:
+                size_attr = total + rng.randint(1, eff_align - 1)
+                miss_here = "size not a multiple of the alignment"
             elif k < 0.7 and not packed:
                 align_attr = rng.choice([3, 6, 12])
                 miss_here = "alignment not a power of two"
@@ -763,6 +776,11 @@ class Gen:
                 others = sorted(set(n for t_ in self.types if t_.kind == "type" for n in (t_.assoc or [])) - taken)
                 if others and rng.random() < self.p["p_fn_name_reuse"]:
                     fname = rng.choice(others)
+                own_vf = [d_["name"] for d_ in (vslots or []) if d_ and declare_vft]
+                if own_vf and self.p["miss"] > 0 and self.expect["miss"] is None and miss_here is None and rng.random() < 0.012:
+                    fname = rng.choice(own_vf)       # a name one of the type's own virtual functions (public or private) has
+                    miss_here = "impl function named like a virtual function of the type"
+                    self.miss_done = True
                 taken.add(fname)
                 addr = self.pool_addr(rng.choice([0, 0x10, 0x401000, 2**31, 2**32 - 1, rng.randint(1, 2**40)]))
                 if self.want_miss():
